@@ -269,6 +269,8 @@ def main(argv=None):
         pass
     except Exception as e:
         print('evidence does not validate: %s' % str(e)[:300])
+        for m in inconclusive[:10]:
+            print('  ' + m[:1500])
         return 3
 
     print('%s tier=%s configs=%d paths=%d branches=%d obligations=%d/%d queries=%d solver=%.1fs conformance=%d wall=%.1fs'
